@@ -252,7 +252,7 @@ func (c *Ctx) RunInst(tier string) {
 
 	// (A2) every string of <=2 lexemes (specials included) after a closed FOR
 	// block, inside one, and after an ordinary instruction line
-	prefixes := []string{"for 0\nrof\n", "i for 1\ndat i\nrof\n", "i for 2\ndat i\n", "dat 0\n", "x equ 1\n"}
+	prefixes := []string{"for 0\nrof\n", "i for 1\ndat i\nrof\n", "i for 2\ndat i\n", "dat 0\n", "x equ 1\n", "i for 0-1\ndat i\nrof\n"}
 	all := append(append([]string{}, fixed...), Specials...)
 	for _, pre := range prefixes {
 		for _, a := range all {
@@ -266,7 +266,7 @@ func (c *Ctx) RunInst(tier string) {
 			}
 		}
 	}
-	rep.Bound += "; every string of <=2 lexemes (all special byte sequences included) appended to 5 prefixes (closed FOR block, FOR with body, open FOR, instruction line, EQU line), also followed by a closing ROF"
+	rep.Bound += "; every string of <=2 lexemes (all special byte sequences included) appended to 6 prefixes (closed FOR block, FOR with body, open FOR, instruction line, EQU line, FOR with a negative count), also followed by a closing ROF"
 
 	// (B) seeds and their mutations
 	lex := append(Lexemes("\x1a"), Specials...)
@@ -337,6 +337,7 @@ func (c *Ctx) RunInst(tier string) {
 		"a i for 1\nmov a, i\nrof\njmp a\n",
 		"i for 0\ndat i\nrof\n",
 		"i for 1\nrof\n=\n",
+		"i for 0-1\ndat i\nrof\ndat 1\n",
 	}
 	for i, src := range forInputs {
 		if c.Sh.Mine(i + 6) {
@@ -344,7 +345,7 @@ func (c *Ctx) RunInst(tier string) {
 			c.exploreCase(&Case{Cfg: cfgArr(cfg94), Src: src, Mode: "fine", Budget: budget, Note: "schedules at every function entry and loop iteration"}, fb, execBudget)
 		}
 	}
-	rep.Bound += fmt.Sprintf("; 10 FOR inputs (success, zero count, error in the count, error in the body, nested, unterminated, undefined count, labelled, a pass that emits nothing, a lexer error after the block): every schedule of consumer and producer goroutines with preemptions at synchronisation points and at every function entry / loop iteration, map orders included; per input the largest preemption bound (<=%d / <=%d) whose execution count fits a budget of %d executions, reported in the counters", sb, fb, execBudget)
+	rep.Bound += fmt.Sprintf("; 11 FOR inputs (a negative count, success, zero count, error in the count, error in the body, nested, unterminated, undefined count, labelled, a pass that emits nothing, a lexer error after the block): every schedule of consumer and producer goroutines with preemptions at synchronisation points and at every function entry / loop iteration, map orders included; per input the largest preemption bound (<=%d / <=%d) whose execution count fits a budget of %d executions, reported in the counters", sb, fb, execBudget)
 
 	// (E) scaling family: the step count stays under a linear budget
 	if c.Sh.I == c.Sh.N-1 {
